@@ -130,6 +130,8 @@ def attribute(diag_sets: list, rows: list, line: int) -> tuple[set, list]:
                 props.add("C08")
         elif f == "dn":
             for op, out, _ in row.get("dn", []) or [["?", "?", []]]:
+                if str(out).startswith("RAW:"):
+                    props.add("C09")  # a raw (non-library) exception escaped from an awaited operation
                 if op in ("c1", "c2", "c3"):
                     props.add("C11")
                 elif op == "finish":
